@@ -704,11 +704,12 @@ class DiskDict:
                     with open(fname, "rb") as f:
                         self._mem_cache[k] = v = pickle.load(f)
                         return v
-                except (EOFError, pickle.UnpicklingError) as e:
+                except (EOFError, pickle.UnpicklingError) as read_error:
                     # file was not written completely yet
                     # e.g. by another process
                     import time
 
+                    e = read_error
                     time.sleep(self.retry_delay)
 
             # file exists but there is some other error after retrying
